@@ -277,6 +277,39 @@ def rule_d8(ctx, facts):
         ctx.fail_closed("D8: expected the five accesses of the park handshake (re-read, WAITER CAS, handle swap, decrement, handle load), found %d" % n)
 
 
+# who may wait for another thread (apart from taking a bin lock, judged by D1/D2): frozen, one reason per entry
+MAY_WAIT = {
+    "map::HashMap::init_table": "losers of the table initialisation yield until the winner has stored the table (D4: the winner always does)",
+    "node::TreeBin::contended_lock": "the writer of a tree bin waits for the readers that are inside the tree (D3/D8: it is always woken)",
+    "map::num_cpus": "one-time initialisation of the cached CPU count (std Once around a call that runs no user code)",
+}
+
+
+def rule_d10(ctx, facts):
+    """no operation waits for a resize, an initialisation or any other thread's progress except at the two places the algorithm provides
+    for: every call of a waiting primitive (yield_now, spin_loop, park, sleep, condvar/once waits) sits in one of the functions of
+    MAY_WAIT.  A new wait -- e.g. `try_presize` spinning until size_ctl becomes non-negative -- turns a resizer that never finishes (a
+    panicking Clone of a key mid-transfer leaves size_ctl negative for good) into a hang of every later caller."""
+    from .anchors import is_blocking_extern
+    n = 0
+    for b in facts.bodies:
+        for c in b.calls:
+            p = is_blocking_extern(c)
+            if not p or b.is_cleanup(c.b):
+                continue
+            if "Mutex" in p or "lock" in p.rsplit("::", 1)[-1]:
+                continue      # lock acquisitions: D1 / D2
+            n += 1
+            owner = strip_generics(b.id.split("::{closure")[0])
+            ok = owner in MAY_WAIT
+            ctx.inst("D10", b, "wait primitive %s" % p.rsplit("::", 1)[-1], c.span, ok,
+                     MAY_WAIT[owner] if ok else
+                     "%s is called in %s: an operation now waits there for another thread's progress, and a thread that never finishes its part "
+                     "(e.g. a resizer whose key Clone panicked) makes every later caller hang" % (p, owner))
+    if n < 3:
+        ctx.fail_closed("D10: expected the three waiting sites of the pinned tree (yield_now in init_table, park and spin_loop in contended_lock), found %d" % n)
+
+
 def ok_edge_generic(body, cas):
     return ok_edge(body, cas)
 
@@ -465,6 +498,8 @@ def run(ctx, facts):
     rule_d6(ctx, facts)
     ctx.rule("D1", "no bin-lock acquisition (direct or through callees) while a bin lock is held", floor=11)
     ctx.rule("D2", "tree write lock: paired on all paths, nothing locked inside, its users called only under the bin lock", floor=4)
+    ctx.rule("D10", "waiting primitives (yield_now, spin_loop, park, ...) only in init_table and TreeBin::contended_lock", floor=3)
+    rule_d10(ctx, facts)
     ctx.rule("D9", "every loop reachable from a read entry point has a progress witness (rule B3 of C12): lookups and iterators terminate by their own steps", floor=5)
     from .rules_c12 import rule_reader_loops
     rule_reader_loops(ctx, facts, "D9")
